@@ -145,6 +145,10 @@ static Plan gen_c04(uint64_t seed, const std::string &tier) {
     else if (mc == 3) s.format = "%{env:BIG}" + marker;
     else s.format = gen_modelled_format(r, marker);
     s.has_output = true; s.output = gen_output_value(r, w);
+    if (r.chance(1, 12)) {   // a socket path at and just below the longest a sockaddr_un can carry (107 bytes + NUL)
+        static const size_t lens[] = {100, 105, 106, 107}; size_t n = lens[r.below(4)];
+        std::string path = "/run/" + std::string(n - 10, 'x') + ".sock"; w.socks[path] = SockNode(); s.output = "socket:" + path;
+    }
     if (r.chance(1, 2)) { s.has_chain = true; s.chain = gen_chain(r, w); }
     if (r.chance(2, 3)) { s.has_facility = true; s.facility = std::string(r.chance(1, 3) ? "LOG_" : "") + FAC_NAMES[r.below(20)]; }
     if (r.chance(2, 3)) { s.has_level = true; s.level = LEV_NAMES[r.below(8)]; }
